@@ -342,7 +342,7 @@ def suite_tld(ctx, part, rowmod=8, rowrem=None, variants=("default",)):
 def c01(ctx):
     suite_email(ctx, 2, 0)
     suite_ip(ctx, 2, 0)
-    suite_email(ctx, 1, 5 if ctx.quick() else 7)
+    suite_email(ctx, 1, 5 if ctx.quick() else 6)
     suite_recorded(ctx, *((800, 800, 80) if ctx.quick() else (6000, 6000, 300)))
     return finish(ctx, "model_checking",
                   "TLC enumerates addresses: all strings over {a . @ \" [ ] 1 :} up to MaxLen and families (local-part pool x domain pool, "
@@ -372,7 +372,7 @@ def c12(ctx):
     q = ctx.quick()
     suite_local(ctx, 2, 5 if q else 6)
     suite_email(ctx, 2, 0)
-    suite_email(ctx, 1, 5 if q else 7)
+    suite_email(ctx, 1, 5 if q else 6)
     suite_ip(ctx, 2, 0)
     suite_tld(ctx, 2)
     if not q:
@@ -391,7 +391,7 @@ def c16(ctx):
     suite_email(ctx, 1, 4 if q else 6, variants=("extra",))
     suite_ip(ctx, 2, 0, variants=("extra",))
     suite_email(ctx, 2, 0)
-    suite_email(ctx, 1, 5 if q else 7)
+    suite_email(ctx, 1, 5 if q else 6)
     suite_ip(ctx, 2, 0)
     suite_tld(ctx, 2)
     suite_tld(ctx, 1, 16 if q else 2)
@@ -661,7 +661,7 @@ BIGPOOL += [list(b"x\xff@y.com"), list(b"x@y\xff.com"), list(b"\xc3@y.com"), lis
 
 
 def c13(ctx):
-    suite_object(ctx, 6 if ctx.quick() else 7, faults=False, small=False)
+    suite_object(ctx, 6, faults=False, small=False)
     suite_random_histories(ctx, 20 if ctx.quick() else 400, 200)
     return finish(ctx, "model_checking",
                   "TLC explores the whole reachable state graph of the eav_t machine (all histories of every length over the pool and "
@@ -948,7 +948,7 @@ def c14(ctx):
 def c20(ctx):
     import cli
     q = ctx.quick()
-    r = tlc_ok(ctx, "MC_Cli", cfg({"MaxLines": 2 if q else 3, "Tier": 1 if q else 2}), heap="10g")
+    r = tlc_ok(ctx, "MC_Cli", cfg({"MaxLines": 2, "Tier": 1 if q else 2}), heap="10g")
     cli.run_cli(ctx, "default", r["out"], "default")
     r2 = tlc_ok(ctx, "MC_Cli", cfg({"MaxLines": 1 if q else 2, "Tier": 1 if q else 2}), heap="10g")
     cli.run_cli(ctx, "asan", r2["out"], "asan")
@@ -1060,7 +1060,9 @@ def c18(ctx):
 
 
 def c19(ctx):
-    suite_object(ctx, 5 if ctx.quick() else 6, faults=True, small=ctx.quick())
+    suite_object(ctx, 5, faults=True, small=True)
+    if not ctx.quick():     # every libidn2 code in the model (full pool), and longer fault-free histories around the failures
+        tlc_ok(ctx, "MC_Eav", EAV_CFG % ("idn2", 0, "TRUE", "FALSE"), timeout=6000)
     return finish(ctx, "fault_enumeration",
                   "every libidn2 return code (31) injected at every conversion call of every history (TLC state graph with the converter as "
                   "nondeterministic environment); histories of MaxHist calls with a fault plan replayed with the converter replaced at link "
